@@ -1152,7 +1152,8 @@ class PulseSequence:
                                  '_filter_function_pc', '_filter_function_pc_gen', 'omega'}
 
         if method == 'conservative':
-            attrs = default_attrs
+            # The intermediates are expressed in the eigenbasis and invalid without it
+            attrs = default_attrs.union({'_intermediates'})
         elif method == 'greedy':
             attrs = default_attrs.union(concatenation_attrs)
         elif method == 'frequency dependent':
